@@ -1095,6 +1095,48 @@ def split_batch(ctx, texts):
     stream(ctx, "split", lines)
 
 
+def position_lines(ctx):
+    """every function in every position, with every kind of fixed key: the position rules of `_PARSERS` and the
+    x-only / compressed flags each reader passes to `_parse_key`."""
+    rng = ctx.rng
+    g = Gen(rng, "mainnet")
+    q = 1 + rng.randrange(secp256k1.n - 1)
+    P = mult(q)
+    comp = (bytes([2 + (P[1] & 1)]) + P[0].to_bytes(32, "big")).hex()
+    unc = (b"\x04" + P[0].to_bytes(32, "big") + P[1].to_bytes(32, "big")).hex()
+    xonly = P[0].to_bytes(32, "big").hex()
+    hybrid = "06" + unc[2:]
+    wif_c = b58.wif_from_prv_key(q, "mainnet", True)
+    wif_u = b58.wif_from_prv_key(q, "mainnet", False)
+    xpub = g.roots[0][1] + "/0/*"
+    keys = [comp, unc, xonly, hybrid, wif_c, wif_u, xpub, f"[aabbccdd/1h]{comp}", f"musig({comp},{xpub})"]
+    addr = b32.address_from_witness(0, bytes(20), "mainnet")
+    lines = []
+    for k in keys:
+        inners = [f"pk({k})", f"pkh({k})", f"wpkh({k})", f"combo({k})", f"multi(1,{k})", f"sortedmulti(1,{k},{comp})",
+                  f"tr({k})", f"rawtr({k})", f"tr({xonly},pk({k}))", f"tr({xonly},multi_a(1,{k}))",
+                  f"tr({xonly},{{pk({k}),sortedmulti_a(1,{k},{xonly})}})", f"multi_a(1,{k})", f"musig({k})",
+                  f"tr({xonly},pkh({k}))", f"tr({xonly},wpkh({k}))", f"tr({xonly},sh(pk({k})))"]
+        for inner in inners:
+            for wrap in ["{}", "sh({})", "wsh({})", "sh(wsh({}))", "wsh(sh({}))", "sh(sh({}))", "wsh(wsh({}))"]:
+                lines.append(wrap.format(inner))
+    for wrap in ["{}", "sh({})", "wsh({})", "sh(wsh({}))"]:
+        lines += [wrap.format(f"addr({addr})"), wrap.format("raw(51)"), wrap.format(f"sh(pk({comp}))"),
+                  wrap.format(f"wsh(pk({comp}))"), wrap.format(f"pk({comp},{comp})"), wrap.format("pk()"),
+                  wrap.format(f"multi(1)"), wrap.format(f"multi(x,{comp})"), wrap.format(f"multi(,{comp})")]
+    lines += [f"tr({xonly},{xonly},{xonly})", f"tr()", f"tr({xonly},)", f"tr({xonly},{{pk({xonly})}})",
+              f"tr({xonly},{{pk({xonly}),pk({xonly}),pk({xonly})}})", f"tr({xonly},{{}})", f"tr({xonly},{{)",
+              "raw()", "raw(zz)", "raw(5)", "raw(51 52)", "raw( 5152 )", "raw(5 1)", "addr()", "addr(x)", "pk", "pk(", "(",
+              ")", "", "pk)(", f"pk({comp})x", f"xpk({comp})", f"PK({comp})"]
+    deep = f"pk({xonly})"
+    for _ in range(130):
+        deep = "{" + deep + f",pk({xonly})" + "}"
+        if _ in (0, 1, 126, 127, 128, 129):
+            lines.append(f"tr({xonly},{deep})")
+    ctx.count("parse", "position-matrix", len(lines))
+    return [f"parse {atoms_for(t)} {T(t)}" for t in lines]
+
+
 MUTATION_CHARS = "(){}[],/*h'#<>; 0129afAFxz"
 
 
@@ -1189,6 +1231,7 @@ def run(ctx):  # noqa: PLR0912, PLR0915
             if any(ord(c) > 126 or ord(c) < 32 for c in m):
                 continue
             lines.append(f"parse {atoms_for(m)} {T(m)}")
+    lines += position_lines(ctx)
     stream(ctx, "parse", lines)
     lines = []
     for text in texts:
@@ -1450,6 +1493,75 @@ def wallet_batch(ctx):
             _SCAN_CTX[ln] = "ok None" if got is None else f"ok {wal.branches.index(got[0])} {got[1]}"
             lines.append(ln)
     stream(ctx, "scan.dpos", lines)
+
+    # the scan order itself: scripts that repeat across positions, chains that repeat
+    from btclib.wallet.wallet import RangedWallet
+
+    class TableWallet(RangedWallet):
+        """RangedWallet over a table of scripts: the base class's own position_of, scripts repeating."""
+
+        def __init__(self, table):
+            super().__init__("mainnet")
+            self.table = table
+            self.script_type = "table"
+
+        @property
+        def branches(self):
+            return tuple(range(len(self.table)))
+
+        @property
+        def is_watch_only(self):
+            return True
+
+        def _script_pub_key(self, branch, index):
+            return ScriptPubKey(self.table[branch][index], "mainnet", check_validity=False)
+
+    lines = []
+    pool = [serialize(["OP_0", bytes([i]) * 20]) for i in range(5)]
+    for _ in range(ctx.n(40, 400)):
+        nb, last = rng.choice([1, 2, 3]), rng.choice([0, 1, 3])
+        table = [[rng.choice(pool[:4]) for _ in range(last + 1)] for _ in range(nb)]
+        wal = TableWallet(table)
+        ids = {p_: i + 1 for i, p_ in enumerate(pool)}
+        tok = "|".join(",".join(str(ids[s_]) for s_ in row) for row in table)
+        for q in pool:
+            ln = f"scan.pos {last} {ids[q]} {tok}"
+            got = wal.position_of(q, last)
+            _SCAN_CTX[ln] = "ok None" if got is None else f"ok {got[0]} {got[1]}"
+            lines.append(ln)
+    stream(ctx, "scan.pos.table", lines)
+    lines = []
+    for _ in range(ctx.n(10, 80)):
+        spec = g.script_expr("top", True)
+        while spec[0] in ("combo", "addr") or any(k.needs_prv for k in spec_keys(spec)):
+            spec = g.script_expr("top", True)
+        d0 = D.parse(spec_text(spec), "mainnet")
+        chains = [d0, d0] if rng.random() < 0.5 else [d0, D.parse(spec_text(g.script_expr("top", True)).replace("combo", "pkh"), "mainnet"), d0]
+        try:
+            wal = DescriptorWallet(chains)
+        except BTClibValueError:
+            continue
+        last = rng.choice([0, 2])
+        try:
+            table = [[[s_.script for s_ in d.script_pub_keys(i)] for i in range((last if d.is_ranged else 0) + 1)]
+                     for d in chains]
+        except BTClibValueError:
+            continue
+        ids = {}
+        for br in table:
+            for row in br:
+                for s_ in row:
+                    ids.setdefault(s_, len(ids) + 1)
+        tok = "|".join(";".join(",".join(str(ids[s_]) for s_ in row) for row in br) for br in table)
+        flags = ",".join("1" if d.is_ranged else "0" for d in chains)
+        for q in [table[-1][-1][0], table[0][0][0]]:
+            if not q:
+                continue
+            ln = f"scan.dpos {last} {ids[q]} {flags} {tok}"
+            got = wal.position_of(q, last)
+            _SCAN_CTX[ln] = "ok None" if got is None else f"ok {wal.branches.index(got[0])} {got[1]}"
+            lines.append(ln)
+    stream(ctx, "scan.dpos.repeated", lines)
 
     # loose keys: a KeyWallet hands out one address per key and remembers it
     for net in NETS[:2]:
